@@ -107,6 +107,23 @@ def answer (w : List String) : String :=
     match r with
     | .ok ops => String.intercalate "," (ops.map opS)
     | .error e => "raise:" ++ errStr e
+  | some "hseq" =>
+    -- hseq top|rec|aux l K cmem c0 c1 w0 w1 r0 r1 uf ub
+    let opS (o : PyOp) : String := match o.index with
+      | .pair a b => s!"{o.type}:{a}:{b}"
+      | .single a => s!"{o.type}:{a}"
+    let cv : List Int := [i 5, i 6]
+    let wv : List Rat := [ratOf (w.getD 7 "0"), ratOf (w.getD 8 "2")]
+    let rv : List Rat := [ratOf (w.getD 9 "0"), ratOf (w.getD 10 "2")]
+    let uf := ratOf (w.getD 11 "1")
+    let ub := ratOf (w.getD 12 "1")
+    let r : M (List PyOp) := match w.getD 1 "" with
+      | "top" => hrevolve fuel (i 2) cv wv rv uf ub
+      | "rec" => hrevolve_recurse fuel (i 2) (i 3) (i 4) cv wv rv none none uf ub
+      | _ => hrevolve_aux fuel (i 2) (i 3) (i 4) cv wv rv none none uf ub
+    match r with
+    | .ok ops => String.intercalate "," (ops.map opS)
+    | .error e => "raise:" ++ errStr e
   | some "beta" =>
     match beta (i 1) (i 2) with
     | .ok q => if q.den = 1 then toString q.num else s!"{q.num}/{q.den}"
